@@ -82,6 +82,31 @@ Theorem C20_begin_end_repeatable : forall (A : Type) (c : list A),
 Proof. exact nonempty_tests_spec. Qed.
 Print Assumptions C20_begin_end_repeatable.
 
+(* TWO ranges alive at once are independent.  The body of a loop over an adaptor of a may run any code `inner`
+   using another container b (typically a whole loop over an adaptor of b) before it writes through its own
+   element.  (i) Whatever `inner` does — even if it writes b — the outer loop visits exactly a's elements (opposite
+   order / with indices 0,1,2,...) and a ends as the pointwise image; (ii) if `inner` only reads b, b is unchanged
+   afterwards and every outer visit sees the same inner observation *)
+Theorem C20_two_ranges_outer_sees_only_its_own : forall (A O : Type) (inner : list A -> list A * O) (a b : list A),
+  (forall f : A -> A, exists vis b', reverse_for2 A O inner f a b = Done (vis, map f a, b') /\ map fst vis = rev a) /\
+  (forall f : nat -> A -> A, exists vis b', enumerate_for2 A O inner f a b =
+       Done (vis, map (fun p => f (fst p) (snd p)) (combine (seq 0 (length a)) a), b') /\ map fst vis = combine (seq 0 (length a)) a).
+Proof.
+  intros A O inner a b. split; intros f; [exact (reverse_for2_any A O inner f a b) | exact (enumerate_for2_any A O inner f a b)].
+Qed.
+Print Assumptions C20_two_ranges_outer_sees_only_its_own.
+
+Theorem C20_two_ranges_other_unchanged : forall (A O : Type) (inner : list A -> list A * O) (a b : list A),
+  (forall b, fst (inner b) = b) ->
+  (forall f : A -> A, reverse_for2 A O inner f a b = Done (map (fun v => (v, snd (inner b))) (rev a), map f a, b)) /\
+  (forall f : nat -> A -> A, enumerate_for2 A O inner f a b =
+       Done (map (fun p => (p, snd (inner b))) (combine (seq 0 (length a)) a),
+             map (fun p => f (fst p) (snd p)) (combine (seq 0 (length a)) a), b)).
+Proof.
+  intros A O inner a b RO. split; intros f; [exact (reverse_for2_readonly A O inner f a b RO) | exact (enumerate_for2_readonly A O inner f a b RO)].
+Qed.
+Print Assumptions C20_two_ranges_other_unchanged.
+
 (* non-vacuity *)
 Module Examples.
 Example C20_ex_enumerate : enumerate_for nat (fun i v => 3 * v + i + 1) [5; 6; 7] = Done ([(0, 5); (1, 6); (2, 7)], [16; 20; 24]).
@@ -101,5 +126,10 @@ Proof. reflexivity. Qed.
 Example C20_ex_twice : enumerate_twice nat [5; 6] = Done ([(0, 5); (1, 6)], [(0, 5); (1, 6)]).
 Proof. reflexivity. Qed.
 Example C20_ex_nested : enumerate_reverse_nested nat [5; 6] = Done [((0, 5), Done [6; 5]); ((1, 6), Done [6; 5])].
+Proof. reflexivity. Qed.
+(* for (x : reverse(a)) { for (y : reverse(b)) ...; x = 3x+7; }  with a = [1;2], b = [8;9] *)
+Example C20_ex_two_ranges :
+  reverse_for2 nat _ (fun b => (b, reverse_rvalue nat b)) (fun v => 3 * v + 7) [1; 2] [8; 9] =
+  Done ([(2, Done [9; 8]); (1, Done [9; 8])], [10; 13], [8; 9]).
 Proof. reflexivity. Qed.
 End Examples.
